@@ -43,8 +43,10 @@ type c13Schema struct {
 var c13Schemas = []c13Schema{
 	{name: "S/S", hashT: "S", rngT: "S", hashes: c13Pool, rngs: c13Pool},
 	{name: "S", hashT: "S", hashes: c13Pool, hashOnly: true},
-	{name: "N/S", hashT: "N", rngT: "S", hashes: []string{"1", "10", "2", "-1", "0.5", "100"}, rngs: c13Pool[:8]},
-	{name: "S/N", hashT: "S", rngT: "N", hashes: c13Pool[:8], rngs: []string{"1", "10", "2", "-1", "0.5", "100"}},
+	{name: "N/S", hashT: "N", rngT: "S", hashes: []string{"1", "10", "2", "-1", "0.5", "100", "0", "-10", "1.5", "15", "-1.5", "0.05", "5", "1E3", "-0.5"}, rngs: c13Pool[:6]},
+	{name: "S/N", hashT: "S", rngT: "N", hashes: c13Pool[:6], rngs: []string{"1", "10", "2", "-1", "0.5", "100", "0", "-10", "1.5", "15", "-1.5", "0.05", "5", "1E3", "-0.5"}},
+	{name: "N/N", hashT: "N", rngT: "N", hashes: []string{"1", "10", "2", "-1", "0.5", "100", "0", "-10", "1.5", "15", "-1.5", "0.05", "5", "1E3", "-0.5"}[:8], rngs: []string{"1", "10", "2", "-1", "0.5", "100", "0", "-10", "1.5", "15", "-1.5", "0.05", "5", "1E3", "-0.5"}[:8]},
+	{name: "B/B", hashT: "B", rngT: "B", hashes: []string{"a", "a.", "\x00", "\x00\x01", ".", "\xff"}, rngs: []string{"a", ".a", "\x01", "\x00", ".", "\xff\x00"}},
 	{name: "B/S", hashT: "B", rngT: "S", hashes: []string{"a", "a.b", "\x00", "\x00\x01", ".", "[1 2]", "1 2", "\x01\x02"}, rngs: c13Pool[:6]},
 }
 
